@@ -640,3 +640,45 @@ mod test {
         assert_eq!(ty!(apply (item 0) (infer 0)), ty);
     }
 }
+
+/// Verification hook (only compiled with `--cfg chalk_verif`): plain public entry
+/// points to the crate-private answer-merging functions.
+#[cfg(chalk_verif)]
+pub mod verif {
+    use super::*;
+
+    /// `merge_into_guidance` as used by `make_solution`.
+    pub fn merge_into_guidance<I: Interner>(
+        interner: I,
+        root_goal: &Canonical<InEnvironment<Goal<I>>>,
+        guidance: Canonical<Substitution<I>>,
+        answer: &Canonical<ConstrainedSubst<I>>,
+    ) -> Canonical<Substitution<I>> {
+        super::merge_into_guidance(interner, root_goal, guidance, answer)
+    }
+
+    /// `new.may_invalidate(current)` as used by `make_solution`.
+    pub fn may_invalidate<I: Interner>(
+        interner: I,
+        new: &Substitution<I>,
+        current: &Canonical<Substitution<I>>,
+    ) -> bool {
+        new.may_invalidate(interner, current)
+    }
+
+    /// `AntiUnifier::aggregate_tys` with fresh variables created in `universe`.
+    pub fn aggregate_tys<I: Interner>(
+        interner: I,
+        infer: &mut InferenceTable<I>,
+        universe: UniverseIndex,
+        ty0: &Ty<I>,
+        ty1: &Ty<I>,
+    ) -> Ty<I> {
+        AntiUnifier {
+            infer,
+            universe,
+            interner,
+        }
+        .aggregate_tys(ty0, ty1)
+    }
+}
